@@ -95,7 +95,9 @@ T.append(tree('D12 sources', cmd('app', 'root', extra=[grp('Application Options'
     opt('q', 'pre', 'scalar', 'string', init=['init']),
     opt('r', 'prel', 'slice', 'string', init=['i1', 'i2']),
     opt('f', 'flag')],
-    [grp('Env Group', [opt('', 'ge', 'scalar', 'string', env='VF_D')], envNs='N')])])))
+    [grp('Env Group', [opt('', 'ge', 'scalar', 'string', env='VF_D')],
+         [grp('Env Inner', [opt('', 'gi', 'scalar', 'string', env='VF_E')],
+              [grp('Env Leaf', [opt('', 'gl', 'slice', 'string', env='VF_F', envDelim=':')], envNs='L')])], envNs='N')])])))
 
 # D13 optional sub-commands on a nested command only (the root still requires a command); no positionals
 T.append(tree('D13 nested optional', cmd('app', 'root', extra=[grp('Application Options', [opt('v', 'verbose')])], cmds=[
